@@ -1,2 +1,120 @@
-(* placeholder until Proofs.v exists *)
-From BLB Require Import C18.Model.
+(* C18/Props.v — property-level theorems only (statements + `exact`), each followed by Print Assumptions.
+   Tags [FULL]/[PARTIAL]/[REFUTED] are read by bin/check.
+   reachable V s: s is reached from an idle Store (empty busy map) by spawning operations and interleaving
+   their small steps in ANY order with ANY answers of the Disk error oracle; V selects the tree
+   (current_tree = the code as it is, repaired = with fixes F3, F4, F20). *)
+From Coq Require Import List ZArith Bool.
+From BLB Require Import C18.Model C18.Proofs C18.Proofs2.
+Import ListNotations.
+Open Scope Z_scope.
+
+(* [FULL] lock protocol, any tree, all interleavings and oracle answers: for every tract the busy entry is absent iff nobody is inside, n>0 iff exactly n readers are inside and nobody else, -1 / -2 iff exactly one writer / long writer is inside and nobody else; and unlock never reaches one of its log.Fatalf branches *)
+Theorem lock_protocol_safe :
+  forall V s, reachable V s ->
+    (forall id, busy_ok (get id (g_busy (fst s))) (cnt id MR (snd s)) (cnt id MW (snd s)) (cnt id MLW (snd s)))
+    /\ (forall i t, nth_error (snd s) i = Some t -> t_pc t <> PCrash).
+Proof. intros V s R. split; [exact (reachable_lock_inv V s R) | exact (reachable_no_crash V s R)]. Qed.
+Print Assumptions lock_protocol_safe.
+
+(* [FULL] repaired tree, fail-fast clause: a request of any mode that meets a long writer is refused at once without waiting, every other conflict waits, and compatible readers share *)
+Theorem long_writer_fail_fast :
+  forall V busy id m, fixF20 V = true ->
+    (get id busy = Some (-2) -> try_lock_once V busy id m = (busy, false, false)) /\
+    (forall st, get id busy = Some st -> st <> -2 -> (m = MR -> st <= 0) -> try_lock_once V busy id m = (busy, false, true)) /\
+    (forall st, get id busy = Some st -> 0 < st -> try_lock_once V busy id MR = (set id (st + 1) busy, true, false)).
+Proof.
+  intros V busy id m HV. split; [|split].
+  - exact (long_writer_fails_fast V busy id m HV).
+  - intros st. exact (other_conflicts_wait V busy id m st HV).
+  - intros st. exact (compatible_readers_share V busy id st).
+Qed.
+Print Assumptions long_writer_fail_fast.
+
+(* [REFUTED] current tree, finding F20: a request meeting a long writer (busy = -2) is told to WAIT, and a writer meeting exactly one reader (busy = 1) is refused at once, because the state is compared with the mode constant LONG_WRITE = 1 *)
+Theorem long_writer_fail_fast_refuted :
+  exists busy id,
+    get id busy = Some (-2) /\ try_lock_once current_tree busy id MR = (busy, false, true) /\
+    try_lock_once current_tree busy id MW = (busy, false, true) /\
+    try_lock_once current_tree [(id, 1)] id MW = ([(id, 1)], false, false).
+Proof. exists [(7, -2)], 7. vm_compute. auto. Qed.
+Print Assumptions long_writer_fail_fast_refuted.
+
+(* [FULL] any tree, no lost wake-up: a successful acquisition never enables an operation that is blocked in busyCond.Wait, so the Broadcast in unlock is the only wake-up that is needed *)
+Theorem no_lost_wakeup :
+  forall V busy id m busy' id' m',
+    try_lock_once V busy id m = (busy', true, false) ->
+    try_lock_once V busy id' m' = (busy, false, true) ->
+    exists b2, try_lock_once V busy' id' m' = (b2, false, true) /\ b2 = busy'.
+Proof. exact acquire_keeps_waiters_blocked. Qed.
+Print Assumptions no_lost_wakeup.
+
+(* [FULL] any tree, all interleavings: two different operations that are inside their sections on the same tract (between lock and unlock, which is where all their Disk calls and CtlRead happen) are both readers; a step of an operation on one tract leaves the lock entry, map entry and file of every other tract unchanged. Carve-out: the gone path of GCTracts takes no lock *)
+Theorem sections_do_not_interleave :
+  forall V s, reachable V s ->
+    (forall i j a b id, i <> j -> nth_error (snd s) i = Some a -> nth_error (snd s) j = Some b ->
+       inside id a = true -> inside id b = true ->
+       lock_mode (o_kind (t_op a)) = MR /\ lock_mode (o_kind (t_op b)) = MR) /\
+    (forall k p l, pending_call p l <> 0 -> k <> KGCGone -> holding k p = true) /\
+    (forall g o p l inj g' p' l' b, step V g o p l inj = Some (g', p', l') -> b <> o_tract o ->
+       get b (g_busy g') = get b (g_busy g) /\ get b (g_tracts g') = get b (g_tracts g) /\ get b (g_files g') = get b (g_files g)).
+Proof.
+  intros V s R. split; [|split].
+  - intros i j a b id. exact (exclusion V s i j a b id R).
+  - exact calls_inside.
+  - intros g o p l inj g' p' l' b. exact (step_frame V g o p l inj g' p' l' b).
+Qed.
+Print Assumptions sections_do_not_interleave.
+
+(* [REFUTED] the carve-out is real: GCTracts gone path, the Delete of a lock-free GC falls between the Open and the Getxattr of a writer that holds the tract lock *)
+Theorem sections_gcgone_refuted :
+  let s' := run_sched repaired (g_one_tract, [new_thread op_write; new_thread op_gone])
+                      [(0%nat, 0); (0%nat, 0); (0%nat, 0); (0%nat, 0); (1%nat, 0); (1%nat, 0)] in
+  match snd s' with
+  | [w; d] => inside 0 w = true /\ pending_call (t_pc w) (t_loc w) = CK_Getx /\ pending_call (t_pc d) (t_loc d) = CK_Delete
+  | _ => False
+  end.
+Proof. exact gcgone_witness. Qed.
+Print Assumptions sections_gcgone_refuted.
+
+(* [FULL] any tree: while a reader (Read, Stat, Check) is inside its section, no step of any other operation except the lock-free GC gone path changes the file of its tract, so the version it checks and the data or size it returns belong to one state *)
+Theorem read_sees_one_state :
+  forall V s i j inj s' a b,
+    reachable V s -> sys_step V s j inj = Some s' ->
+    nth_error (snd s) i = Some a -> nth_error (snd s) j = Some b ->
+    inside (o_tract (t_op a)) a = true -> lock_mode (o_kind (t_op a)) = MR ->
+    o_kind (t_op b) <> KGCGone ->
+    get (o_tract (t_op a)) (g_files (fst s')) = get (o_tract (t_op a)) (g_files (fst s)).
+Proof. exact reader_stable. Qed.
+Print Assumptions read_sees_one_state.
+
+(* [REFUTED] current tree, finding F3: a conditional SetVersion whose stamp is stale returns with the lock released but its tract handle still open; opens minus closes is 1 at quiescence *)
+Theorem ops_balanced_refuted :
+  let s' := run_sched current_tree (g_one_tract, [new_thread op_setversion_stale]) (sched_one 12) in
+  all_done s' = true /\ g_opens (fst s') - g_closes (fst s') = 1 /\ g_busy (fst s') = [].
+Proof. exact f3_witness. Qed.
+Print Assumptions ops_balanced_refuted.
+
+(* [FULL] tree with fix F3, all interleavings, every error pattern of the oracle: opens minus closes equals the number of operations currently between their Open and their closeErrTract; once every operation has returned, every successful Open has been closed and the busy map is empty *)
+Theorem ops_balanced :
+  forall V s, fixF3 V = true -> reachable V s ->
+    g_opens (fst s) - g_closes (fst s) = Z.of_nat (length (filter has_open (snd s))) /\
+    (forall i t, nth_error (snd s) i = Some t -> l_opened (t_loc t) = true -> open_pc (t_pc t) = true) /\
+    (quiescent s -> g_opens (fst s) = g_closes (fst s) /\ forall id, get id (g_busy (fst s)) = None).
+Proof.
+  intros V s HV R. destruct (reachable_bal V s HV R) as [C JJ]. split; [exact C|split].
+  - exact JJ.
+  - exact (quiescent_balanced V s HV R).
+Qed.
+Print Assumptions ops_balanced.
+
+(* [REFUTED] current tree, finding F4: one failing open leaves Manager.openFiles at 1 with nothing open, so Stop never retires the workers *)
+Theorem manager_open_count_refuted :
+  mgr_run current_tree 0 [2] = 1 /\ mgr_retires (mgr_run current_tree 0 [2]) = false.
+Proof. vm_compute. auto. Qed.
+Print Assumptions manager_open_count_refuted.
+
+(* [FULL] tree with fix F4: after any request sequence openFiles is the start value plus successful opens minus closes, so it is back to the start value when every successful open was closed once *)
+Theorem manager_open_count_balanced :
+  forall V rs n, fixF4 V = true -> mgr_run V n rs = n + countz is_open_ok rs - countz is_close rs.
+Proof. exact mgr_balanced. Qed.
+Print Assumptions manager_open_count_balanced.
